@@ -2,7 +2,7 @@
 import json
 import os
 
-from lib import Check, ToolError, build_harness, log, read_ndjson
+from lib import SPECS, Check, ToolError, build_harness, log, read_ndjson, tlc
 from sierra_common import corpus_jobs, only_audited, replay_obj, run_tool, validate_runs
 
 # which violated laws are the property as stated (alarm) for which check
@@ -37,6 +37,15 @@ def explicit_job(rep):
 def main_for(prop, tier, replay=None):
     chk = Check(prop, tier)
     build_harness(["sierra_tool"])
+    if prop == "C04" and not replay:
+        # design level: the wallet discipline implies GasCovers / Bounded for every small CFG, and termination
+        gd = os.path.join(SPECS, "GasDesign")
+        for cfg in ("MCGasDesign.cfg", "MCGasDesign3.cfg", "MCGasDesignLive.cfg"):
+            r = tlc(gd, "GasDesign", cfg, "c04_" + cfg[:-4], workers=4, timeout=900)
+            if not r.ok:
+                raise ToolError(f"GasDesign/{cfg}: {r.violated} {r.errors[:2]} (see {r.out_path})")
+            chk.add_tlc(r)
+            os.remove(r.out_path)
     if replay:
         rep = json.load(open(replay))["replay"]
         jobs = [explicit_job(rep)]
